@@ -235,30 +235,24 @@ Theorem C08_token_pure_across_worlds : forall (W : pentry -> Prop) w c t s m,
 Proof. exact token_decide_pure_store. Qed.
 
 (* The decision is the documented rule applied to the UNION of what the token holds and inherits,
-   each item valid in this datacenter or not on its own.  FALSE of the faithful model in general
-   (open finding templated-policy-scope-dropped: ACLTemplatedPolicies.Deduplicate keeps the first
-   templated policy of each (template, variables) and drops the Datacenters of the others), hence
-   _partial under [tps_uniform]: the templated policies a token holds or inherits for one
-   (template, variables) agree on being valid here.  No hypothesis on service or node identities
-   (the scope-narrowing defect of service identities is repaired, commit 0b8ae30). *)
-Theorem C08_identity_union_partial : forall w t,
-  tps_uniform w t ->
+   each item valid in this datacenter or not on its own.  Holds outright since the two Deduplicate
+   repairs (0b8ae30 service identities, b8a4eb3 templated policies). *)
+Theorem C08_identity_union : forall w t,
   sameset (map e_pol (policies_for_identity w t)) (union_policies w t)
   /\ forall m, spec_decide (map e_pol (policies_for_identity w t)) m = spec_decide (union_policies w t) m.
-Proof. intros w t H. split; [apply policies_are_union, H|intros m; apply identity_union_spec, H]. Qed.
+Proof. intros w t. split; [apply policies_are_union|intros m; apply identity_union_spec]. Qed.
 
-Theorem C08_token_semantics_partial : forall w c t s m,
+Theorem C08_token_semantics : forall w c t s m,
   versioned (in_world w) -> reach (in_world w) c ->
   forallb (fun e => e_ok e && validate (e_pol e)) (policies_for_identity w t) = true ->
-  tps_uniform w t ->
   token_decide w c t s m = Some (spec_chain (union_policies w t) s m).
 Proof. exact token_semantics. Qed.
 
 (* the order in which a token lists its policy links, ROLE links and identities does not matter
-   (same hypotheses; both orders must resolve to policies that parse) *)
-Theorem C08_link_order_independent_partial : forall w c c' t t' s m,
+   (both orders must resolve to policies that parse) *)
+Theorem C08_link_order_independent : forall w c c' t t' s m,
   versioned (in_world w) -> reach (in_world w) c -> reach (in_world w) c' ->
-  token_equiv t t' -> tps_uniform w t ->
+  token_equiv t t' ->
   forallb (fun e => e_ok e && validate (e_pol e)) (policies_for_identity w t) = true ->
   forallb (fun e => e_ok e && validate (e_pol e)) (policies_for_identity w t') = true ->
   token_decide w c t s m = token_decide w c' t' s m.
@@ -269,24 +263,20 @@ Definition p_svc_a : policy :=
   Policy PEmpty PEmpty PEmpty PEmpty PEmpty [Rule KService false "a" (PCanon LWrite) PEmpty].
 Definition e_svc_a : pentry := PEntry 100 0 100 true p_svc_a.
 
-(* the witnesses: roles R1 builtin/service(a)@[dc1], R2 builtin/service(a)@[dc2], resolved in dc2 *)
+(* regression examples, the witnesses that refuted the two statements before b8a4eb3: roles R1
+   builtin/service(a)@[dc1], R2 builtin/service(a)@[dc2], resolved in dc2, in both link orders *)
 Definition ex_tp_world : world :=
   World 2 [] [(1, WRole [] [] [] [TPol 0 0 [1]]); (2, WRole [] [] [] [TPol 0 0 [2]])] [] [] [((0, 0), e_svc_a)].
 
-Theorem C08_identity_union_refuted :
-  let t := WToken [] [1; 2] [] [] [] in
-  policies_for_identity ex_tp_world t = []
-  /\ union_policies ex_tp_world t = [p_svc_a]
-  /\ token_decide ex_tp_world caches_empty t deny_all (MServiceWrite "a") = Some Deny
-  /\ spec_chain (union_policies ex_tp_world t) deny_all (MServiceWrite "a") = Allow.
-Proof. vm_compute. repeat split; reflexivity. Qed.
-
-Theorem C08_role_order_refuted :
+Example C08_templated_scope_regression :
   token_equiv (WToken [] [1; 2] [] [] []) (WToken [] [2; 1] [] [] [])
-  /\ token_decide ex_tp_world caches_empty (WToken [] [1; 2] [] [] []) deny_all (MServiceWrite "a") = Some Deny
-  /\ token_decide ex_tp_world caches_empty (WToken [] [2; 1] [] [] []) deny_all (MServiceWrite "a") = Some Allow.
+  /\ map e_pol (policies_for_identity ex_tp_world (WToken [] [1; 2] [] [] [])) = [p_svc_a]
+  /\ union_policies ex_tp_world (WToken [] [1; 2] [] [] []) = [p_svc_a]
+  /\ token_decide ex_tp_world caches_empty (WToken [] [1; 2] [] [] []) deny_all (MServiceWrite "a") = Some Allow
+  /\ token_decide ex_tp_world caches_empty (WToken [] [2; 1] [] [] []) deny_all (MServiceWrite "a") = Some Allow
+  /\ token_decide ex_tp_world caches_empty (WToken [] [1] [] [] []) deny_all (MServiceWrite "a") = Some Deny.
 Proof.
-  split; [repeat split; try apply Permutation_refl; apply perm_swap|]. vm_compute. split; reflexivity.
+  split; [repeat split; try apply Permutation_refl; apply perm_swap|]. vm_compute. repeat split; reflexivity.
 Qed.
 
 (* regression example, the witness that refuted the union statement before 0b8ae30: own service
@@ -295,15 +285,12 @@ Definition ex_narrow_world : world :=
   World 2 [] [(1, WRole [] [SIdent 0 [1; 3]] [] [])] [(0, e_svc_a)] [] [].
 Example C08_unscoped_identity_regression :
   let t := WToken [] [1] [SIdent 0 []] [] [] in
-  tps_uniform ex_narrow_world t
-  /\ map e_pol (policies_for_identity ex_narrow_world t) = [p_svc_a]
+  map e_pol (policies_for_identity ex_narrow_world t) = [p_svc_a]
   /\ token_decide ex_narrow_world caches_empty t deny_all (MServiceWrite "a") = Some Allow.
-Proof.
-  cbv zeta. split; [intros x y Hx; vm_compute in Hx; destruct Hx|]. vm_compute. split; reflexivity.
-Qed.
+Proof. vm_compute. split; reflexivity. Qed.
 
-(* non-vacuity of all hypotheses of C08_token_pure / C08_token_semantics_partial /
-   C08_link_order_independent_partial together, on the scenario of the role-sharing mutation:
+(* non-vacuity of all hypotheses of C08_token_pure / C08_token_semantics /
+   C08_link_order_independent together, on the scenario of the role-sharing mutation:
    R1 "a"@[dc1], R2 "a"@[dc2], one scoped templated policy; in dc2 token A = [R1;R2] may write "a",
    token B = [R1] may not, before and after A, through a non-empty reachable cache *)
 Definition ex_roles_world : world :=
@@ -314,14 +301,13 @@ Example C08_token_example :
   let B := WToken [] [1] [] [] [] in
   let c := fst (token_compile ex_roles_world caches_empty A) in
   versioned (in_world ex_roles_world) /\ reach (in_world ex_roles_world) c /\ c_authz c <> []
-  /\ tps_uniform ex_roles_world A /\ tps_uniform ex_roles_world B
   /\ forallb (fun e => e_ok e && validate (e_pol e)) (policies_for_identity ex_roles_world A) = true
   /\ token_equiv A (WToken [] [2; 1] [] [] [])
   /\ token_decide ex_roles_world caches_empty A deny_all (MServiceWrite "a") = Some Allow
   /\ token_decide ex_roles_world caches_empty B deny_all (MServiceWrite "a") = Some Deny
   /\ token_decide ex_roles_world c B deny_all (MServiceWrite "a") = Some Deny.
 Proof.
-  cbv zeta. split; [|split; [|split; [|split; [|split; [|split; [|split]]]]]].
+  cbv zeta. split; [|split; [|split; [|split; [|split]]]].
   - intros x y Hx Hy.
     assert (E : forall e, in_world ex_roles_world e -> e = e_svc_a \/ e = PEntry 101 0 101 true (p_key "dns" (PCanon LRead))).
     { intros e H. destruct H as [(id & wp & Hin & _)|[(n & Hin)|[(n & Hin)|(k & Hin)]]]; cbn in Hin.
@@ -332,9 +318,6 @@ Proof.
     destruct (E _ Hx) as [ -> | -> ], (E _ Hy) as [ -> | -> ]; cbn; (split; [intros H1 H2|intros H1]); try discriminate; try (split; reflexivity); reflexivity.
   - apply token_compile_reach, reach_empty.
   - vm_compute. discriminate.
-  - intros x y Hx Hy _. vm_compute in Hx, Hy.
-    destruct Hx as [<-|[<-|[]]], Hy as [<-|[<-|[]]]; reflexivity.
-  - intros x y Hx Hy _. vm_compute in Hx, Hy. destruct Hx as [<-|[]], Hy as [<-|[]]; reflexivity.
   - vm_compute. reflexivity.
   - repeat split; try apply Permutation_refl. apply perm_swap.
   - vm_compute. repeat split; reflexivity.
@@ -445,11 +428,10 @@ Print Assumptions C08_token_pure.
 Print Assumptions C08_token_resolution_keeps_reach.
 Print Assumptions C08_reach_monotone.
 Print Assumptions C08_token_pure_across_worlds.
-Print Assumptions C08_identity_union_partial.
-Print Assumptions C08_token_semantics_partial.
-Print Assumptions C08_link_order_independent_partial.
-Print Assumptions C08_identity_union_refuted.
-Print Assumptions C08_role_order_refuted.
+Print Assumptions C08_identity_union.
+Print Assumptions C08_token_semantics.
+Print Assumptions C08_link_order_independent.
+Print Assumptions C08_templated_scope_regression.
 Print Assumptions C08_unscoped_identity_regression.
 Print Assumptions C08_token_example.
 Print Assumptions C08_levelled_example.
